@@ -29,6 +29,10 @@ K1_EXCLUSIONS = {
     # "Only what the legacy text format cannot carry is excluded: default sample bank/volume, ..."
     ('section::general::decode::GeneralKey', 'SampleVolume'): 'C02: "default sample bank/volume" is excluded',
 }
+K1_COND_EXTRA = {
+    # C02: "special style outside mania" is excluded by the statement
+    ('section::general::decode::GeneralKey', 'SpecialStyle'): {'mode'},
+}
 K2_EXCLUSIONS = {
     # SampleSet is written from the first sample point, the decoder stores it as the default bank:
     # "default sample bank/volume" is excluded by the statement
@@ -190,6 +194,15 @@ def run(facts, out):
                         {'exclusion': exc} if exc else None, ordinal=False)
                 continue
             out.add('KT-K1', writer, 'key:' + v, '%s:%d' % (wfile, (rws[0]['ln'] if rws else lit['ln'])), True, ordinal=False)
+            # K1b: a key may be written conditionally only on its own field (the statement's exclusions:
+            # non-positive ids / countdown offset, empty text) or on a listed extra condition
+            for r in rws:
+                extra = r['cond_roots'] - dfields - K1_COND_EXTRA.get((key_enum, v), set())
+                okc = not extra
+                out.add('KT-K1', writer, 'cond:' + v, '%s:%d' % (wfile, r['ln']), okc,
+                        '' if okc else ('key `%s` is only written when a condition on `%s` holds; the decoder reads it '
+                                        'unconditionally, so the value is lost for the other case') % (v, ','.join(sorted(extra))),
+                        ordinal=False)
             # K2
             for r in rws:
                 roots = r['roots'] if r['const'] is None else r['cond_roots']
@@ -223,6 +236,8 @@ def run(facts, out):
     check_colors(facts, out)
     check_events(facts, out)
     check_enum_numbers(facts, out)
+    check_path_tokens(facts, out)
+    check_sample_banks(facts, out)
 
 
 def check_key_fromstr(facts, out):
@@ -549,3 +564,177 @@ def run_kv(facts, out):
             out.add('KV', p, 'trim_comment', '%s:%d' % (b.file, b.line), trims,
                     '' if trims else 'section parser no longer strips trailing comments', ordinal=False)
     # callers' delegations must not strip either: covered by DG-D3 (line forwarded unmodified)
+
+
+# ------------------------------------------------------------------------------ path tokens / banks
+
+PT_MOD = 'section::hit_objects::slider::path_type::'
+
+
+def check_path_tokens(facts, out):
+    """K5: the slider path type token.  The decoder reads a letter (+ optional degree) into
+    PathType { kind, degree }; the encoder must (a) write the same letter for each kind, (b) write
+    the degree, and (c) decide "new explicit segment" on the whole PathType, not on a part of it."""
+    dec = facts.hir.get(PT_MOD + 'PathType::new_from_str')
+    enc = facts.hir.get('encode::add_path_data')
+    out.anchor('KT', 'PathType::new_from_str / add_path_data', dec is not None and enc is not None)
+    if dec is None or enc is None:
+        return
+    # decoder: letter -> const name -> kind
+    letter_const = {}
+
+    def visit(n, anc):
+        if n.get('k') == 'match' and not n.get('src', '').startswith('TryDesugar'):
+            for a in n['arms']:
+                lits = []
+                _pat_lits(a['pat'], lits)
+                names = []
+
+                def v2(x, anc2):
+                    if x.get('k') == 'path' and x.get('def', '').startswith(PT_MOD + 'PathType::') and x.get('dk', '').startswith('AssocConst'):
+                        names.append(x['def'])
+                H.walk(a['body'], v2)
+                for l in lits:
+                    if isinstance(l, str) and len(l) == 1 and names:
+                        letter_const[l] = names[-1]
+                if a['pat'].get('k') == 'wild' and names:
+                    letter_const['_'] = names[-1]
+    H.walk(dec['body'], visit)
+    letter_kind = {}
+    for l, cpath in letter_const.items():
+        ch = facts.hir.get(cpath)
+        kinds = []
+        if ch:
+            def v3(x, anc):
+                if x.get('k') == 'path' and x.get('def', '').startswith(PT_MOD + 'SplineType::'):
+                    kinds.append(x['name'])
+            H.walk(ch['body'], v3)
+        letter_kind[l] = kinds[-1] if kinds else None
+    # encoder: kind -> letter
+    kind_letter = {}
+
+    def visit_e(n, anc):
+        if n.get('k') == 'match' and not n.get('src', '').startswith('TryDesugar'):
+            for a in n['arms']:
+                vs = []
+                _pat_variants(a['pat'], PT_MOD + 'SplineType', vs)
+                if not vs:
+                    continue
+                letters = set()
+
+                def v4(x, anc2):
+                    if x.get('k') == 'lit' and x.get('t') == 'bytes' and len(x['v']) == 1:
+                        letters.add(chr(x['v'][0]))
+                    if x.get('k') == 'mcall' and x.get('def') == 'std::io::Write::write_fmt':
+                        pf = H.parse_format_block(x['args'][0])
+                        if pf and pf[0] and pf[0][0][0] == 'lit':
+                            letters.add(pf[0][0][1][:1])
+                H.walk(a['body'], v4)
+                for v in vs:
+                    kind_letter[v] = letters
+    H.walk(enc['body'], visit_e)
+    out.anchor('KT', 'encoder spline-kind letters', len(kind_letter) >= 4, str(kind_letter))
+    for kind, letters in sorted(kind_letter.items()):
+        ok = len(letters) == 1 and letter_kind.get(next(iter(letters))) == kind
+        if not ok and len(letters) == 1:
+            # the decoder's default arm (`_`) covers letters it does not list (Catmull = 'C')
+            l = next(iter(letters))
+            ok = l not in letter_kind and letter_kind.get('_') == kind
+        out.add('KT-K5', 'encode::add_path_data', 'type-letter:' + kind, 'src/encode.rs', ok,
+                '' if ok else 'spline kind `%s` is written as %s but the decoder reads that letter as `%s`' % (
+                    kind, sorted(letters), [letter_kind.get(x, letter_kind.get('_')) for x in letters]), ordinal=False)
+    # (b) degree written for BSpline
+    ctx_inits = H.binding_inits(enc)
+    wrote_degree = False
+    for ev in H.write_events(enc):
+        if ev['kind'] == 'fmt' and ev['pieces'][:1] == [('lit', 'B')] and ev['args']:
+            if 'degree' in repr(ev['args'][0]):
+                wrote_degree = True
+    out.add('KT-K5', 'encode::add_path_data', 'degree-written', 'src/encode.rs', wrote_degree,
+            '' if wrote_degree else 'the B-spline degree the decoder reads is never written', ordinal=False)
+    # (c) explicit-segment decision compares whole path types
+    inits = ctx_inits.get('needs_explicit_segment', [])
+    okc = False
+    why = 'no `needs_explicit_segment` decision found'
+    for init in inits:
+        cmps = []
+
+        def v5(x, anc):
+            if x.get('k') == 'binary' and x.get('op') in ('Ne', 'Eq'):
+                cmps.append(x)
+        H.walk(init, v5)
+        tys = [H.peel(c['a']).get('ty', '') for c in cmps if c.get('op') == 'Ne']
+        if any(t.endswith('PathType>') or t.endswith('::PathType') for t in tys):
+            okc = True
+        else:
+            why = ('the "start a new explicit segment" test compares %s: two consecutive segments that differ only in a '
+                   'part the comparison ignores (e.g. the B-spline degree) are merged when written' % (tys or 'nothing'))
+    out.add('KT-K5', 'encode::add_path_data', 'segment-decision-on-whole-type', 'src/encode.rs', okc, '' if okc else why,
+            ordinal=False)
+
+
+def check_sample_banks(facts, out):
+    """K6: which samples carry the addition bank.  Decoder: convert_sound_type builds the samples
+    that get `bank_for_addition`; encoder: get_sample_bank's addition-bank lookup must select exactly
+    those names (not the normal sample, not file samples)."""
+    dec = facts.hir.get('section::hit_objects::hit_samples::SampleBankInfo::convert_sound_type')
+    enc = facts.hir.get('encode::get_sample_bank')
+    out.anchor('KT', 'convert_sound_type / get_sample_bank', dec is not None and enc is not None)
+    if dec is None or enc is None:
+        return
+    add_names, normal_names = set(), set()
+
+    def visit(n, anc):
+        if n.get('k') == 'call' and n['f'].get('k') == 'path' and n['f'].get('def', '').endswith('HitSampleInfo::new') \
+                and len(n['args']) == 4:
+            nm = H.peel(n['args'][0])
+            bank = H.peel(n['args'][1])
+            name = nm.get('name') if nm.get('k') == 'path' else ('File' if 'File' in repr(nm) else None)
+            fc = H.field_chain(bank)
+            if fc and fc[1] == ['bank_for_addition']:
+                add_names.add(name)
+            elif fc and fc[1] == ['bank_for_normal']:
+                normal_names.add(name)
+    H.walk(dec['body'], visit)
+    out.anchor('KT', 'decoder addition-bank sample names', len(add_names) >= 3, str(sorted(add_names)))
+    inits = H.binding_inits(enc)
+
+    def filter_excludes(var):
+        """names excluded by `.find(|s| !matches!(s.name, A | B))` in the init of var; (negated, names)"""
+        for init in inits.get(var, []):
+            res = []
+
+            def v(n, anc):
+                if n.get('k') == 'mcall' and n.get('name') == 'find' and n['args']:
+                    cl = H.peel(n['args'][0])
+                    if cl.get('k') == 'closure':
+                        body = H.peel(cl['body'])
+                        neg = False
+                        if body.get('k') == 'unary' and body.get('op') == 'Not':
+                            neg = True
+                            body = H.peel(body['e'])
+                        names = []
+                        if body.get('k') == 'match':
+                            _pat_paths(body['arms'][0]['pat'], names)
+                        elif body.get('k') == 'binary' and body.get('op') in ('Eq', 'Ne'):
+                            if body.get('op') == 'Ne':
+                                neg = not neg
+                            for side in (body['a'], body['b']):
+                                sp = H.peel(side)
+                                if sp.get('k') == 'path':
+                                    names.append(sp.get('name'))
+                        res.append((neg, set(names)))
+            H.walk(init, v)
+            if res:
+                return res[0]
+        return None
+    fa = filter_excludes('add_bank')
+    ok = bool(fa) and fa[0] is True and fa[1] == {'HIT_NORMAL', 'File'}
+    out.add('KT-K6', 'encode::get_sample_bank', 'addition-bank-source', 'src/encode.rs', ok,
+            '' if ok else ('the addition bank is taken from the first sample that is %s %s; the decoder gives the '
+                           'addition bank to %s only (a file sample always carries the normal bank)') % (
+                'not' if fa and fa[0] else '', sorted(fa[1]) if fa else '?', sorted(add_names)), ordinal=False)
+    fn = filter_excludes('normal_bank')
+    okn = bool(fn) and fn[0] is False and fn[1] == {'HIT_NORMAL'}
+    out.add('KT-K6', 'encode::get_sample_bank', 'normal-bank-source', 'src/encode.rs', okn,
+            '' if okn else 'the normal bank is not taken from the HIT_NORMAL sample', ordinal=False)
